@@ -345,6 +345,14 @@ def replay(pid, path):
     cfg = props.PROPS[pid]
     payload = json.load(open(path))
     res = ensure_built()
+    if payload.get("kind") == "conc":
+        env = dict(os.environ, GORACE="halt_on_error=0 exitcode=0")
+        cmd = [os.path.join(BUILD, "conc"), payload["driver"], "-seed", str(payload.get("seed", 1)), "-ms", str(payload.get("ms", 4000))]
+        p = subprocess.run(cmd, stdout=subprocess.PIPE, stderr=subprocess.PIPE, text=True, errors="replace", env=env)
+        print(p.stdout[-3000:])
+        bad = "DATA RACE" in p.stderr or '"ok":true' not in p.stdout
+        print(p.stderr[-3000:] if bad else "no violation this time (schedules are not deterministic)")
+        return 1 if bad else 0
     if payload.get("kind") != "case":
         print("replay file names a broken obligation, not an input:")
         print(json.dumps(payload, indent=1))
